@@ -109,6 +109,20 @@ func c07Run(c *core.Ctx) *core.Result {
 	}
 	nrec := newNotifyRec()
 	ropt := fsutil.ReceiveOpt{}
+	// a receiver-side Filter that rejects some entries: the writer ignores
+	// them (not written, not requested, a stale entry of that name not
+	// deleted) while every announced STAT still counts for the ids
+	eff := src
+	if R.P(1, 4) {
+		var set map[string]bool
+		set, eff = c07RejectSet(R, src, old)
+		if len(set) > 0 {
+			ropt.Filter = func(p string, st *types.Stat) bool { return !set[filepath.ToSlash(p)] }
+			r.Count("sessions_with_rejecting_filter", 1)
+			r.Count("entries_rejected_by_filter", int64(len(set)))
+			desc += fmt.Sprintf(" rejected=%q", sortedKeys(set))
+		}
+	}
 	if R.P(1, 2) {
 		ropt.NotifyHashed = nrec.fn
 		ropt.ContentHasher = newHasher().fn
@@ -195,9 +209,9 @@ func c07Run(c *core.Ctx) *core.Result {
 		r.ViolateD("fin-too-early", det(), "%s: %s", desc, v)
 	}
 	// REQ set == needed set
-	E, either := changedSet(old, src)
+	E, either := changedSet(old, eff)
 	want := map[string]bool{}
-	for _, e := range src.Entries {
+	for _, e := range eff.Entries {
 		if e.Type == tree.File && e.LinkTo == "" && E[e.Path] && !either[e.Path] {
 			want[e.Path] = true
 		}
@@ -219,7 +233,7 @@ func c07Run(c *core.Ctx) *core.Result {
 		}
 	}
 	for p := range got {
-		e := src.Get(p)
+		e := eff.Get(p)
 		if !want[p] && !(either[p] && e != nil) {
 			extra = append(extra, p)
 		}
@@ -235,11 +249,65 @@ func c07Run(c *core.Ctx) *core.Result {
 		r.Violate("dest-unreadable", "%v", err)
 		return r
 	}
-	exp, created := expectSync(src, old, nw)
+	exp, created := expectSync(eff, old, nw)
 	if diffs := tree.Diff(exp, nw, syncMask(created)); len(diffs) > 0 {
 		r.ViolateD("dest-diverged", det(), "%s: dest differs from the announced tree:\n%s", desc, strings.Join(trunc(diffs, 8), "\n"))
 	}
 	r.Count("entries_compared", int64(len(exp.Entries)))
 	r.Nontrivial = big || multi >= 3
 	return r
+}
+
+// c07RejectSet picks paths a receiver-side Filter rejects and returns them
+// with the view the destination must then equal: a rejected path keeps what
+// the old destination has there (or stays absent). Only paths are picked
+// whose rejection has a defined outcome: non-directories outside every
+// hard-link group, in both trees, whose ancestors are directories of the
+// source (so no ancestor is deleted or replaced).
+func c07RejectSet(R *core.Rand, src, old *tree.Tree) (map[string]bool, *tree.Tree) {
+	set := map[string]bool{}
+	eff := src.Clone()
+	plain := func(t *tree.Tree, p string) (exists, ok bool) {
+		e := t.Get(p)
+		if e == nil {
+			return false, true
+		}
+		return true, e.Type != tree.Dir && e.LinkTo == "" && t.GroupOf(p) == ""
+	}
+	dirsOK := func(p string) bool {
+		for a := tree.Parent(p); a != ""; a = tree.Parent(a) {
+			if e := src.Get(a); e == nil || e.Type != tree.Dir {
+				return false
+			}
+		}
+		return true
+	}
+	var cands []string
+	seen := map[string]bool{}
+	for _, t := range []*tree.Tree{src, old} {
+		for _, e := range t.Entries {
+			if seen[e.Path] {
+				continue
+			}
+			seen[e.Path] = true
+			inS, okS := plain(src, e.Path)
+			inO, okO := plain(old, e.Path)
+			if okS && okO && (inS || inO) && dirsOK(e.Path) {
+				cands = append(cands, e.Path)
+			}
+		}
+	}
+	sort.Strings(cands)
+	for _, p := range cands {
+		if !R.P(1, 3) {
+			continue
+		}
+		set[p] = true
+		eff.Remove(p)
+		if oe := old.Get(p); oe != nil {
+			eff.Put(oe.Clone())
+		}
+	}
+	eff.Sort()
+	return set, eff
 }
